@@ -364,6 +364,20 @@ let () =
                              | _ -> "broken")
                        | U2fErr e -> "unconvertible " ^ str e
                        | U2fPanic s -> "panic " ^ str s))
+               | "arb", [ t; h ] -> (
+                   let u = bytes_of_hex h in
+                   let r =
+                     match t with
+                     | "rp" -> arb_rp u
+                     | "user" -> arb_user u
+                     | "hmac" -> arb_hmac u
+                     | "filtered" -> arb_filtered [ z_of_int (-7); z_of_int (-8) ] u
+                     | _ -> failwith "arb type"
+                   in
+                   match r with
+                   | AOk (v, rest) -> Printf.sprintf "ok %s rest=%d" (show_val v) (List.length rest)
+                   | ANotEnough -> "err NotEnoughData"
+                   | APanic s -> "panic " ^ str s)
                | "optab", [ b ] ->
                    let z = z_of_hex b in
                    let o = op_of_u8 tb z in
